@@ -1239,7 +1239,12 @@ func (g *generator) writeExpressionAttributeValueDefault(indentLevel int, attr p
 	if r, err = g.w.Write(attr.Expression.Value); err != nil {
 		return err
 	}
-	g.sourceMap.Add(attr.Expression, r)
+	// Expressions that the generator has synthesised itself (e.g. the class attribute is
+	// rewritten to templ.CSSClasses(...).String()) have no position in the templ file. Adding
+	// them would map the start of the file to the synthesised code.
+	if attr.Expression.Range != (parser.Range{}) {
+		g.sourceMap.Add(attr.Expression, r)
+	}
 	// )
 	if _, err = g.w.Write(")\n"); err != nil {
 		return err
